@@ -1014,6 +1014,34 @@ func genLogic(repo string, u logicUnit) (string, error) {
 	}
 	var b strings.Builder
 	fmt.Fprintf(&b, "import TRV.Basic.Logic\n/-! GENERATED by harness/extract (generator %s, logic.go) from the Go source of `%s/` — do not\n    edit; regenerated on every check that lists it.  One namespace per translated unit. -/\nnamespace TRV.Generated.%s\nopen TRV.Logic\n\n", u.Name, u.Dir, u.Name)
+	// package-level error values (sentinels): name -> kind of the value they are initialised with
+	{
+		t := &ltrans{p: p, atoms: map[string]lsort{}, locals: map[types.Object]bool{}}
+		var rows []string
+		for _, f := range p.files {
+			for _, d := range f.Decls {
+				gd, ok := d.(*ast.GenDecl)
+				if !ok || gd.Tok != token.VAR {
+					continue
+				}
+				for _, sp := range gd.Specs {
+					vs := sp.(*ast.ValueSpec)
+					for i, n := range vs.Names {
+						if i >= len(vs.Values) || !isErrorType(p.info.TypeOf(vs.Values[i])) {
+							continue
+						}
+						rv := t.retVals("", vs.Values[i], lenv{}, 1)
+						if len(rv) == 1 && strings.Contains(rv[0], "V.err ") {
+							kind := rv[0][strings.Index(rv[0], "V.err ")+6 : len(rv[0])-1]
+							rows = append(rows, fmt.Sprintf("(%s, %s)", leanStr(n.Name), kind))
+						}
+					}
+				}
+			}
+		}
+		sort.Strings(rows)
+		fmt.Fprintf(&b, "/-- package-level error values of `%s/`: name ↦ kind of the value it is initialised with -/\ndef sentinels : List (String × String) := [%s]\n\n", u.Dir, strings.Join(rows, ", "))
+	}
 	for _, tg := range u.Targets {
 		t := &ltrans{p: p, atoms: map[string]lsort{}, locals: map[types.Object]bool{}}
 		s, err := t.translate(tg)
